@@ -698,13 +698,35 @@ struct or a package variable. -/
 theorem observer_accesses_allowed :
     Ecal.Gen.C15.observerAccesses.all (fun p => allowedAccesses.contains p.2) = true := by decide
 
-/-- **Obligation (d).** The debugger's own fields are written under its write lock; fields of the
-calling thread's interrogation state by that thread (`running` under the condition's lock: the
-handshake above); the one exception is the `lastVisit` time stamp (under the read lock; only
-`StopThreads`' idle wait reads it). -/
+/-- **Obligation (d), evaluator side only.** The fields of `ecalDebugger` itself are written under its
+write lock (exception: the `lastVisit` time stamp, under the read lock; only `StopThreads`' idle wait
+reads it). Writes to fields of the calling thread's `interrogationState` (class `is`) are LISTED but not
+lock-checked here: the thread owns its state while it runs; `running` is covered by the handshake
+model; the controller side (`Continue` writes `cmd`/`stepOutStack` under the read lock, `StopThreads`
+writes `cmd`) only touches states reported suspended. Map accesses on both sides: `own_reads_locked`. -/
 theorem own_writes_locked :
     Ecal.Gen.C15.ownWrites.all (fun w => w.2.2 == "w" || w.2.2 == "is" ||
       (w.2.1 == "ecalDebugger.lastVisit" && w.2.2 == "r")) = true := by decide
+
+
+/-- **Obligation over the regenerated fact `own_reads_locked`.** In EVERY method of the debugger
+(evaluator side and command side) each element read, element write, delete and iteration on the maps
+the debugger owns (`breakPoints`, `interrogationStates`, `callStacks`, the snapshot maps, `sources`) happens
+while `ed.lock` is held — writes under the write lock, reads and iterations at least under the read
+lock. An access with lock mode `none` (Go: `fatal error: concurrent map read and map write` /
+`concurrent map iteration and map write` as soon as a controller edits break points or calls
+`StopThreads` while threads run — the process dies) refutes it. -/
+theorem own_reads_locked :
+    Ecal.Gen.C15.mapAccesses.all (fun a => a.2.2.2 == "w" || (a.2.2.2 == "r" && a.2.2.1 != "write")) = true := by
+  decide
+
+/-- **Obligation over the regenerated fact `visit_returns_nil`.** The value the visit functions hand
+back to `baseRuntime.Eval` (which passes it on as the evaluation's error) is always `nil`: every return
+statement returns `nil`, the result of another visit function, or a local that only ever holds those. -/
+theorem visit_returns_nil :
+    Ecal.Gen.C15.visitReturns.all (fun p => p.2 == "nil" || p.2 == "visit-call" ||
+      p.2 == "local(nil|visit-call)") = true := by
+  decide
 
 /-! ### life cycle: the attach point does not matter -/
 
